@@ -58,6 +58,8 @@ for d in sorted(glob.glob(V + '/seeded/C*-m*')):
     runs = results.get(mid, [])
     caught = [r for r in runs if r['exit_code'] == 1 and r['signatures']]
     h = hist.get(mid, {"initially_missed": False, "strengthening": ""})
+    confirm = open(d + '/confirm.txt').read().strip().split('\n') if os.path.exists(d + '/confirm.txt') else None
+    rnd = {'1': 1, '2': 1, '3': 2, '4': 2, '5': 3, '6': 3}.get(mid[-1], 0)
     meta = {
         "id": mid,
         "property": pid,
@@ -68,8 +70,9 @@ for d in sorted(glob.glob(V + '/seeded/C*-m*')):
         "needs_to_manifest": needs[:2500],
         "demonstration": {"files": demos, "package_dir": pkgdir, "tests": tests,
                           "run": "copy the file into %s of a tree with patch.diff applied; go test -vet=off -count=1 -run '%s' ./%s  (passes on the clean tree, fails with the change)" % (pkgdir, '|'.join(tests), pkgdir)},
-        "origin": "written by a fresh sub-agent that was given only the property text and its own scratch worktree (nothing from /verif)",
-        "what_i_ran": [
+        "round": rnd,
+        "origin": "written by a fresh sub-agent that was given only the property text and its own scratch worktree (nothing from /verif)" + ("" if rnd == 1 else "; it was also told which functions the earlier rounds had changed for this property, to get a different mechanism"),
+        "what_i_ran": (confirm or []) + [
             "tools/confirm_seed.sh (scratch worktree of /repo HEAD): demonstration passes on the clean tree; patch applies and `go build ./...` succeeds; demonstration fails with the patch; the existing tests of the touched packages (`go test -vet=off -count=1 <pkgs>`) pass with the patch",
             "tools/run_seeded.sh %s seeded/%s/patch.diff (scratch worktree, VERIF_REPO=<worktree> ./check %s): see detection" % (pid, mid, pid),
         ],
